@@ -1,6 +1,7 @@
 package main
 
 import (
+	"go/types"
 	"strings"
 
 	"golang.org/x/tools/go/ssa"
@@ -183,20 +184,57 @@ func init() {
 		// worker literal
 		d := o.Fn("(*am/dispatch.Dispatcher).run")
 		var worker *ssa.Function
-		for _, a := range Anons(d) {
-			if len(e.Calls(a, "(*am/dispatch.Dispatcher).routeAlert")) > 0 {
-				worker = a
+		var workerGo *ssa.Go
+		for _, in := range AllInstrs(d) {
+			// the ingestion goroutine: a literal or a method started with go
+			if g, ok := in.(*ssa.Go); ok {
+				if f := g.Call.StaticCallee(); f != nil && len(f.Blocks) > 0 && len(e.Calls(f, "(*am/dispatch.Dispatcher).routeAlert")) > 0 {
+					worker, workerGo = f, g
+				}
 			}
 		}
 		o.RequireFn(worker != nil, "worker", "no ingestion worker routes received alerts", d)
 		wr := o.One(e.Calls(worker, "(*am/dispatch.Dispatcher).routeAlert"), "worker-route", "the worker must route received alerts", worker)
 		o.Site(wr, "route received alert")
-		o.Check(strings.HasSuffix(e.Arg(wr, 2), "#2.Data"), "worker-route-arg", "the worker must route the alert it received", wr)
 		// from a successful receive (ok) without iterator error, routeAlert is reached before the next receive
-		okRecv := LRe(`select\[blocking\]\(recv:invoke:am/provider\.AlertIterator\.Next\(.*\)#1`, true)
+		// the channel the worker receives from is the subscription's (it.Next()), read in the worker or handed to it
+		chS := ""
+		recvIdx := -1
+		for _, in := range AllInstrs(worker) {
+			sel, ok := in.(*ssa.Select)
+			if !ok {
+				continue
+			}
+			for _, st := range sel.States {
+				src := e.X(worker, st.Chan)
+				if p, isP := st.Chan.(*ssa.Parameter); isP && workerGo != nil {
+					for i, q := range worker.Params {
+						if q == p && i < len(workerGo.Call.Args) {
+							src = e.X(d, workerGo.Call.Args[i])
+						}
+					}
+				}
+				if strings.Contains(src, "invoke:am/provider.AlertIterator.Next(") {
+					chS = e.X(worker, st.Chan)
+					// the received value is tuple element 2 + (number of receive cases before this one)
+					recvIdx = 2
+					for _, prev := range sel.States {
+						if prev == st {
+							break
+						}
+						if prev.Dir == types.RecvOnly {
+							recvIdx++
+						}
+					}
+				}
+			}
+		}
+		o.Require(chS != "", "worker-recv", "the ingestion worker does not receive from the alert subscription", worker.Blocks[0].Instrs[0])
+		o.Check(strings.HasSuffix(e.Arg(wr, 2), "#"+itoa(recvIdx)+".Data") && strings.Contains(e.Arg(wr, 2), "recv:"+chS), "worker-route-arg", "the worker must route the alert it received, routes "+e.Arg(wr, 2), wr)
+		okRecv := LRe(`select\[blocking\]\(.*recv:`+regexpQuote(chS)+`.*\)#1`, true)
 		itErr := LRe(`\(invoke:am/provider\.AlertIterator\.Err\(.*\) == nil\)`, true)
 		for _, wl := range e.Loops(worker) {
-			o.Check(!loopBackWithoutFromHeader(o, wl, IsInstr(wr), e.CutContradicting(okRecv, itErr, LRe(`sel:recv:invoke:am/provider\.AlertIterator\.Next\(.*\)`, true))), "worker-skip", "a received alert can be dropped by the ingestion worker", wr)
+			o.Check(!loopBackWithoutFromHeader(o, wl, IsInstr(wr), e.CutContradicting(okRecv, itErr, L("sel:recv:"+chS, true))), "worker-skip", "a received alert can be dropped by the ingestion worker", wr)
 		}
 		// the worker only stops when the channel is closed or the dispatcher is cancelled
 		for _, in := range AllInstrs(worker) {
